@@ -415,6 +415,10 @@ func decimalValueFromString(numStr string, fracDigRequired uint8) (n Number, err
 
 	s := numStr
 	dx := strings.Index(s, ".")
+	// Zeros at the end of the fraction do not add precision: 1.50 is 1.5.
+	for dx >= 0 && len(s)-1-dx > int(fracDigRequired) && s[len(s)-1] == '0' {
+		s = s[:len(s)-1]
+	}
 	var fracDig int
 	if dx >= 0 {
 		fracDig = len(s) - 1 - dx
